@@ -38,6 +38,7 @@ def run(run):
         elif rerr == 0 and real != model:
             lexmism.append(dict(text=text, real=real[:20], model=model[:20]))
     outside = []
+    long_done = collections.Counter()
     try:
         # (1) lexer correspondence on arbitrary strings
         alphabet = list(" \t\n\r\"\\'()[]{}.,=!<>|&+-*/%abzAZ_09") + ["in", " in ", "LIKE", "predicate", "FROM", "SELECT", "é", "\u2028"]
@@ -127,7 +128,8 @@ def run(run):
                                                   dict(base=base_text, layout=text, extracted=extracted, base_results=sum(wantc.values()), layout_results=sum(got2.values())))
                     # very long physical lines (a whole query joined onto one line): same tokens, same results. The
                     # 12 shifted variants move every byte offset across token interiors; one variant exceeds 64 KiB.
-                    if i < 2 and q.cond is not None and len(q.from_items) == 1:
+                    if long_done[pi] < 2 and q.cond is not None and len(q.from_items) == 1:
+                        long_done[pi] += 1
                         k0, a0 = q.from_items[0]
                         for nconj, shifts in ((330, range(12)), (4800, (0,))):
                             v = QG.clone(q)
